@@ -108,7 +108,7 @@ class CHECK(Check):
             # two derivation steps away from the minimal sentences; expression leaves as identifiers (0) and as integers (1)
             seen = set(pairs)
             for table in (0, 1) + ((2,) if thorough else ()):
-                for s in f.s0_pairs(table=table) + f.s0_triples(table=table):
+                for s in f.s0_pairs(table=table) + f.s0_triples(table=table) + (f.s0_sibling_pairs(table=table) if table == 0 or thorough else []):
                     if s not in seen and usable(s):
                         seen.add(s)
                         out.append((d, 'default', None, m.text_of(s, numbered=True)))
